@@ -23,6 +23,8 @@ pub struct PatchArchiveBuilder {
     block_size_bits: u8,
     /// Optional encoding info for extended header
     encoding_info: Option<PatchArchiveEncodingInfo>,
+    /// Plain-data mode (header flag bit 0)
+    plain_data: bool,
     /// File entries to include (will be grouped into blocks)
     file_entries: Vec<PatchFileEntry>,
 }
@@ -34,6 +36,7 @@ impl PatchArchiveBuilder {
             version: 2,
             block_size_bits: STANDARD_BLOCK_SIZE_BITS,
             encoding_info: None,
+            plain_data: false,
             file_entries: Vec::new(),
         }
     }
@@ -47,6 +50,12 @@ impl PatchArchiveBuilder {
     /// Set block size bits
     pub fn block_size_bits(mut self, bits: u8) -> Self {
         self.block_size_bits = bits;
+        self
+    }
+
+    /// Set plain-data mode (header flag bit 0, see `PatchArchiveHeader::is_plain_data`)
+    pub fn plain_data(mut self, plain_data: bool) -> Self {
+        self.plain_data = plain_data;
         self
     }
 
@@ -133,11 +142,14 @@ impl PatchArchiveBuilder {
         let blocks = group_into_blocks(&sorted_entries, block_size, file_key_size);
 
         // Compute flags
-        let flags = if self.encoding_info.is_some() {
+        let mut flags = if self.encoding_info.is_some() {
             0x02
         } else {
             0x00
         };
+        if self.plain_data {
+            flags |= 0x01;
+        }
 
         // Write header
         let header = PatchArchiveHeader {
